@@ -158,6 +158,20 @@ entry(
     "DESIGN.md section 2, C06",
 )
 
+entry(
+    "C15",
+    "Hypothesis differential testing of five implementations: installed .so, serial and OpenMP rebuilds of the generated C, interpreted .pyx, numpy references",
+    "For generated shapes (0/1/2/3/7/16/64 and, for thread tests, up to 1000 x 300), magnitudes (normal/huge/tiny/mixed, +-0, NaN in fields), layouts "
+    "(C/Fortran/strided/read-only) and integer lattices with pairs exactly on bin edges, every kernel entry point must give bit-identical results for the "
+    "installed artefact, a serial rebuild and an OpenMP rebuild with num_threads in {None,1,2,3,4,8,16} (repeated), agree within 4 ulp with a plain "
+    "interpretation of its .pyx (harness/pyx2py.py) and within 8e-12 sum|terms| (+ phase conditioning) with numpy references of the defining sums; public "
+    "wrappers must not depend on config.NUM_THREADS and SRF output must equal the defining mode sum of the generator's own arrays.",
+    "Trusted: gcc/g++ -O2 reproduces the shipped arithmetic (no FMA contraction); libm shared by CPython math and the kernels; schedules are sampled by "
+    "repetition, not enumerated (a hand-made race - barrier removed / accumulator shared in the generated C - did not manifest in ~3000 runs, so rare "
+    "interleavings can be missed).",
+    "DESIGN.md section 2, C15",
+)
+
 
 def main():
     props = [json.loads(l) for l in open(os.path.join(VERIF, "properties.jsonl"))]
